@@ -33,7 +33,19 @@ fn gen(rng: &mut Rng, _sub: u64) -> Workload {
         events.push(Ev::Open { doc: 1 });
     }
     let mix = rng.below(3); // swarm: change-heavy / request-heavy / balanced
-    for _ in 0..n {
+    // Exploratory only (C24_REOPEN=1): close the first document (saved or not) and open it again; the client then
+    // shows the saved state. `didClose` is not among the notifications the property quantifies over, and the
+    // unchanged tree does not recompile a re-opened document whose text differs from the one compiled last
+    // (DESIGN.md 13.4, observations) — so the class is off in every tier.
+    let reopen_at = if std::env::var("C24_REOPEN").is_ok() && rng.chance(1, 5) { Some(rng.below(n)) } else { None };
+    for step in 0..n {
+        if reopen_at == Some(step) {
+            if rng.chance(1, 2) {
+                events.push(Ev::Save { doc: 0 });
+            }
+            events.push(Ev::Close { doc: 0 });
+            events.push(Ev::Open { doc: 0 });
+        }
         let k = rng.below(10);
         let pick = match mix {
             0 => if k < 7 { 0 } else if k < 8 { 1 } else { 2 },
@@ -99,16 +111,19 @@ fn judge(wl: &Workload, r: &SimResult) -> Option<(String, String)> {
     }
     // (b) the observable state is that of the latest version
     let m = client_model(wl);
-    let want = last_version(wl);
     let client_text = &m.docs[0].text;
+    // the version the client shows at the end (a re-open discards unsaved edits, so not always the last one sent)
+    let marker_of = |t: &str| -> i32 { t.split("marker_v").nth(1).and_then(|r| r.split('(').next()).and_then(|d| d.parse().ok()).unwrap_or(0) };
+    let want = marker_of(client_text);
+    let newest = last_version(wl);
     let syms = r.obs.probe_symbols.first().cloned().flatten().unwrap_or_default();
     let has = |v: i32| syms.contains(&format!("\"marker_v{v}\""));
     if !has(want) {
-        let seen: Vec<i32> = (1..=want).filter(|v| has(*v)).collect();
+        let seen: Vec<i32> = (1..=newest).filter(|v| has(*v)).collect();
         return Some(("b".into(), format!("at quiescence documentSymbol does not show the latest version's marker_v{want} (markers visible: {seen:?}; symbols empty: {})", syms == "null" || syms.is_empty())));
     }
-    if let Some(old) = (1..want).find(|v| has(*v)) {
-        return Some(("b".into(), format!("at quiescence documentSymbol still shows marker_v{old} of an older version next to marker_v{want}")));
+    if let Some(old) = (1..=newest).find(|v| *v != want && has(*v)) {
+        return Some(("b".into(), format!("at quiescence documentSymbol still shows marker_v{old} of another version next to marker_v{want}")));
     }
     match r.obs.final_temp_file.first().cloned().flatten() {
         Some(t) if &t == client_text => {}
@@ -177,8 +192,32 @@ fn droppable(e: &Ev) -> bool {
 }
 
 fn well_formed(wl: &Workload) -> bool {
-    // the ranged changes replace one fixed whole line: valid in every sub-history
-    client_model(wl).invalid.is_empty()
+    // the ranged changes replace one fixed whole line: valid in every sub-history; what a client can send is
+    // constrained by which documents it has open
+    let mut open = vec![false; wl.files.len()];
+    for e in &wl.events {
+        match e {
+            Ev::Open { doc } => {
+                if open[*doc] {
+                    return false;
+                }
+                open[*doc] = true;
+            }
+            Ev::Close { doc } => {
+                if !open[*doc] {
+                    return false;
+                }
+                open[*doc] = false;
+            }
+            Ev::Change { doc, .. } | Ev::Save { doc } | Ev::Req { doc, .. } => {
+                if !open[*doc] {
+                    return false;
+                }
+            }
+            Ev::Deleted { .. } => {}
+        }
+    }
+    open[0] && client_model(wl).invalid.is_empty()
 }
 
 pub const DEF: PropDef = PropDef {
